@@ -94,6 +94,16 @@ type hist struct {
 	imagesChecked, imagesInsideFlush, imagesAfterSync int
 	idsSinceSync                                      int // ids handed out since the last sequence sync (= start of the last metadata Flush)
 	ntHashes                                          []string
+
+	// series id sequence cache (seqcache_test.go)
+	hot               *hotTarget      // (shard, metric) whose cache entry was dropped: rows prefer new series of it
+	seqCached         map[seqKey]bool // (shard, metric) that got a new series since open / since the last drop (evidence only)
+	seqDrops          []seqDropRec    // new series created on the miss path
+	seriesPlaceBefore string
+	nestDropBudget    int
+
+	vol              *volState // TestVolumeHistory only (volume_test.go)
+	allShardsInCycle bool      // the next flush cycle names every shard
 }
 
 func (h *hist) logf(format string, args ...any) {
@@ -117,7 +127,7 @@ func (h *hist) guarded(fn func()) {
 
 func (h *hist) fatalf(format string, args ...any) {
 	h.t.Helper()
-	h.t.Fatalf(format+"\nhistory (%d index databases, []byte arguments in reused buffers, overwritten after each call: %s):\n  %s", append(args, h.nIdx, h.w.mode, strings.Join(h.ops, "\n  "))...)
+	h.t.Fatalf("%s\nhistory (%d index databases, []byte arguments in reused buffers, overwritten after each call: %s):\n  %s", clip(fmt.Sprintf(format, args...), 6000), h.nIdx, h.w.mode, strings.Join(h.ops, "\n  "))
 }
 
 var (
@@ -165,13 +175,26 @@ func (h *hist) write(label string) {
 	r := h.drawRow(label)
 	shard := rapid.IntRange(0, h.nIdx-1).Draw(h.t, label+"shard")
 	mode := rapid.SampledFrom([]string{"meta+index", "index+meta", "index", "meta"}).Draw(h.t, label+"workers")
+	forHot := h.hot != nil && rapid.IntRange(0, 3).Draw(h.t, label+"forHotTarget") != 0
+	if forHot {
+		// a new series of the (shard, metric) whose sequence cache entry was dropped
+		r, shard, mode = h.hotRow(label, r)
+		h.seriesPlaceBefore = h.seriesPlace(shard, r.mkey())
+	}
 	h.m.seq++
 	h.logf("%swrite seq=%d %s shard=%d workers=%s", label, h.m.seq, r, shard, mode)
 	before := h.m.count()
+	newSeries := strings.Contains(mode, "index") && h.m.series[shard][r.mkey()][r.canonTags()] == nil
 	if err := applyRow(h.n, h.w, h.m, r, shard, mode); err != nil {
 		h.fatalf("%v", err)
 	}
 	h.idsSinceSync += h.m.count() - before
+	if newSeries {
+		h.seqCached[seqKey{shard, r.mkey()}] = true
+	}
+	if forHot {
+		h.hotWritten(label, r.canonTags())
+	}
 	h.classes["write"]++
 	if label != "" {
 		h.classes["write-nested-in-"+h.inFlush]++
@@ -280,12 +303,13 @@ func (h *hist) drawQuery(label string) querySpec {
 // (frozen names are still served from memory until the flush swaps them for the new files).
 func (h *hist) query(label string) {
 	q := h.drawQuery(label)
+	q.fwdHint = func(i int) map[uint32]uint32 { return h.m.forwardHint(i, q.mkey(), q.Key) }
 	out, err := execQuery(h.n, q)
 	if err != nil {
 		h.logf("%squery %s", label, q)
 		h.fatalf("live node: %v", err)
 	}
-	h.logf("%squery %s -> %s", label, q, out)
+	h.logf("%squery %s -> %s", label, q, clip(out.String(), 2000))
 	if err := h.m.judge(q, out, true); err != nil {
 		h.fatalf("live node: %v", err)
 	}
@@ -315,7 +339,7 @@ func (h *hist) flushStep() {
 		// which shards take part in this cycle (a flush request names a subset of shards)
 		h.pending = nil
 		for i := 0; i < h.nIdx; i++ {
-			if rapid.IntRange(0, 3).Draw(h.t, "shardInCycle") != 0 {
+			if rapid.IntRange(0, 3).Draw(h.t, "shardInCycle") != 0 || h.allShardsInCycle {
 				h.pending = append(h.pending, i)
 			}
 		}
@@ -381,6 +405,7 @@ func (h *hist) runFlush(what string, fn func() error) {
 	h.inFlush = what
 	h.nestBudget = rapid.IntRange(0, 2).Draw(h.t, "nestBudget")
 	h.nestQBudget = rapid.IntRange(0, 2).Draw(h.t, "nestQBudget")
+	h.nestDropBudget = rapid.IntRange(0, 1).Draw(h.t, "nestDropBudget")
 	h.pointsInFlush, h.copiesInFlush = 0, 0
 	if what == "meta" {
 		h.idsSinceSync = 0 // Flush starts with the sequence sync
@@ -434,6 +459,11 @@ func (h *hist) onPoint(p crash.Point) {
 		h.nestBudget--
 		h.write(fmt.Sprintf("[nested in %s %s %s(%s)] ", h.inFlushName(), beforeAfter(p.Before), p.FSOp, filepath.Base(filepath.Dir(p.Path))))
 	}
+	if h.nestDropBudget > 0 && rapid.IntRange(0, 7).Draw(h.t, "nestDropHere") == 0 {
+		// the janitor goroutine of the series sequence cache removes an entry while the flush job runs
+		h.nestDropBudget--
+		h.dropSeqCache(fmt.Sprintf("[nested in %s %s %s(%s)] ", h.inFlushName(), beforeAfter(p.Before), p.FSOp, filepath.Base(filepath.Dir(p.Path))))
+	}
 	if h.nestQBudget > 0 && rapid.IntRange(0, 7).Draw(h.t, "nestQueryHere") == 0 {
 		h.nestQBudget--
 		h.query(fmt.Sprintf("[nested in %s %s %s(%s)] ", h.inFlushName(), beforeAfter(p.Before), p.FSOp, filepath.Base(filepath.Dir(p.Path))))
@@ -480,6 +510,16 @@ func (h *hist) reopen() {
 	}
 	// the node keeps running: what it was asked during the check belongs to its history
 	h.m.seq++
+	h.seqCached = map[seqKey]bool{} // a restart starts with an empty sequence cache ...
+	for i := range rm.series {
+		for k, byTags := range rm.series[i] {
+			for c := range byTags {
+				if h.m.series[i][k][c] == nil {
+					h.seqCached[seqKey{i, k}] = true // ... the check created a new series of the metric
+				}
+			}
+		}
+	}
 	if err := h.m.merge(rm); err != nil {
 		h.fatalf("after reopen: %v", err)
 	}
@@ -738,20 +778,19 @@ func checkRecovered(n *node, w *wire, m *model, dur durable, class func(string))
 				if !t.has {
 					continue
 				}
-				fwd, _, err := forwardOf(d, t.id)
+				fwd, fwdSeries, err := forwardOf(d, t.id, m.forwardHint(i, k, tk))
 				if err != nil && !isNotFound(err) {
 					return nil, fmt.Errorf("recovered forward index (idx%d %s[%s]): %w", i, k, tk, err)
 				}
-				if len(fwd) > 0 {
+				if fwdSeries != nil && !fwdSeries.IsEmpty() {
 					if _, ok := usedTagKey[t.id]; !ok {
 						usedTagKey[t.id] = fmt.Sprintf("forward index of idx%d for tag key %s[%s]", i, k, tk)
 					}
 				}
-				sids := make([]uint32, 0, len(fwd))
-				for s := range fwd {
-					sids = append(sids, s)
+				var sids []uint32
+				if fwdSeries != nil {
+					sids = fwdSeries.ToArray() // every series the forward index lists (ascending)
 				}
-				sort.Slice(sids, func(a, b int) bool { return sids[a] < sids[b] })
 				for _, s := range sids {
 					sm := byID[s]
 					if sm == nil {
@@ -1023,7 +1062,7 @@ func runHistory(t *rapid.T, thorough bool) {
 		t: t, dir: dir, root: filepath.Join(dir, "live"), nIdx: nIdx, m: newModel(nIdx), thorough: thorough,
 		idxPrepSeq: make([]int, nIdx), dur: durable{Idx: make([]int, nIdx)},
 		imgDur: map[int]durable{}, classes: map[string]int{},
-		cs: newCompactState(nIdx), switched: map[string]bool{},
+		cs: newCompactState(nIdx), switched: map[string]bool{}, seqCached: map[seqKey]bool{},
 	}
 	h.u = drawUniverse(t)
 	defer debug.SetPanicOnFault(debug.SetPanicOnFault(true))
@@ -1073,7 +1112,8 @@ func runHistory(t *rapid.T, thorough bool) {
 			h.finishCycle()
 			h.classes["flush-cycle-as-one-step"]++
 		}),
-		"compact": step(h.compact),
+		"compact":      step(h.compact),
+		"dropSeqCache": step(func() { h.dropSeqCache("") }),
 		"reopen": step(func() {
 			if h.phase != phIdle {
 				h.t.Skip("flush cycle in progress")
@@ -1119,6 +1159,7 @@ func runHistory(t *rapid.T, thorough bool) {
 		ev.Case("crash-points", canon+"|"+hs, true, nil, nil)
 	}
 	h.recordCompactions(canon)
+	h.recordSeqDrops("sequence-cache-misses", canon)
 }
 
 func TestHistory(t *testing.T) {
